@@ -134,7 +134,7 @@ def body(case, rec):
     st2, sx2 = intervals(s2)
     sc2, tc2, near2, info2 = pairs.classify(g, tt2, tx2, st2, sx2)
     if pairs.close_disjoint_excluded(info, sc) or pairs.close_disjoint_excluded(info2, sc2):
-        rec.exclude('close_disjoint_ratio_above_8')
+        rec.exclude('short_panel_close_to_much_longer_one')
         return
     if case['sym'] in ('rot', 'reflect'):
         if not all(pairs.aspect_ok(e) for e in (t2, s2)):
